@@ -261,3 +261,63 @@ theorem mapFilter_valid {f : Rune → Option Rune} (s t : Bytes)
     simp only [Option.map_some, Option.some.injEq] at h
     subst h
     exact validUtf8_encodeRunes us
+
+/-! ## capitalize -/
+
+theorem capitalize_some {s t : Bytes} (hs : s ≠ []) (h : StrF.capitalize s = some t) :
+    ∃ u, upperRune (decodeRune s).1 = some u ∧ t = encodeRune u ++ s.drop (decodeRune s).2 := by
+  cases s with
+  | nil => exact absurd rfl hs
+  | cons b rest =>
+    simp only [StrF.capitalize] at h
+    cases hu : upperRune (decodeRune (b :: rest)).1 with
+    | none => rw [hu] at h; cases h
+    | some u =>
+      rw [hu] at h
+      simp only [Option.map_some, Option.some.injEq] at h
+      exact ⟨u, rfl, h.symm⟩
+
+/-! ## slice -/
+
+theorem encodeRunes_length_take_drop (rs : List Rune) (a b : Nat) :
+    (encodeRunes ((rs.drop a).take b)).length ≤ (encodeRunes rs).length := by
+  have h1 : rs = rs.take a ++ ((rs.drop a).take b ++ (rs.drop a).drop b) := by
+    rw [List.take_append_drop, List.take_append_drop]
+  conv => rhs; rw [h1]
+  rw [encodeRunes_append, encodeRunes_append]
+  simp only [List.length_append]
+  omega
+
+/-! ## truncate -/
+
+theorem encodeRunes_take_prefix (rs : List Rune) (k : Nat) : encodeRunes (rs.take k) <+: encodeRunes rs := by
+  conv => rhs; rw [← List.take_append_drop k rs]
+  rw [encodeRunes_append]
+  exact List.prefix_append _ _
+
+/-- the effective start of `slice`: a negative start counts from the end -/
+def sliceStart (L start : Int) : Int := if start < 0 then L + start else start
+
+theorem slice_eq (s : Bytes) (start n : Int) :
+    StrF.slice s start n =
+      if sliceStart (runeLen s) start < 0 ∨ sliceStart (runeLen s) start > runeLen s ∨ n < 0 then []
+      else encodeRunes (((decodeRunes s).drop (sliceStart (runeLen s) start).toNat).take n.toNat) := by
+  unfold StrF.slice
+  by_cases hs : s.isEmpty
+  · have : s = [] := List.isEmpty_iff.mp hs
+    subst this
+    simp [decodeRunes, decodeRunesAux, encodeRunes]
+  · simp only [hs, Bool.false_eq_true, if_false]
+    show (if sliceStart (runeLen s) start < 0 ∨ sliceStart (runeLen s) start > runeLen s ∨ n < 0 then []
+      else encodeRunes (((decodeRunes s).drop (sliceStart (runeLen s) start).toNat).take
+        (if n > (runeLen s : Int) - sliceStart (runeLen s) start then (runeLen s : Int) - sliceStart (runeLen s) start else n).toNat)) = _
+    generalize sliceStart (runeLen s) start = st
+    by_cases hc : st < 0 ∨ st > (runeLen s : Int) ∨ n < 0
+    · rw [if_pos hc, if_pos hc]
+    · rw [if_neg hc, if_neg hc]
+      congr 1
+      by_cases hn : n > (runeLen s : Int) - st
+      · rw [if_pos hn, List.take_of_length_le, List.take_of_length_le]
+        · rw [List.length_drop]; simp only [runeLen] at hn hc ⊢; omega
+        · rw [List.length_drop]; simp only [runeLen] at hn hc ⊢; omega
+      · rw [if_neg hn]
